@@ -92,6 +92,7 @@ package jsonschema
 //@   ensures[C11] bool: plainJ(x) && plainJ(y) && isJBool(jv(x)) && isJBool(jv(y)) ==> result == (jb(jv(x)) == jb(jv(y)))
 //@   ensures[C11] str: plainJ(x) && plainJ(y) && isJStr(jv(x)) && isJStr(jv(y)) ==> result == (js(jv(x)) == js(jv(y)))
 //@   ensures[C11] null: plainJ(x) && plainJ(y) && (jv(x) == JNull || jv(y) == JNull) ==> result == (jv(x) == jv(y))
+//@   ensures[C12] fn: result == eqv(x, y)
 //@   ensures[C11] mixed: plainJ(x) && plainJ(y) && typeName(jv(x)) != typeName(jv(y)) && !(isJNum(jv(x)) && isJNum(jv(y))) ==> !result
 
 //@ contract jsonNumber(v)
@@ -226,6 +227,9 @@ package jsonschema
 //@   reject[C01] "maxItems:" isJArr(jv(instance)) && schema.MaxItems != nil && jalen(jv(instance)) > *schema.MaxItems
 //@   reject[C01] "minProperties:" isJObj(jv(instance)) && schema.MinProperties != nil && jocard(jv(instance)) < *schema.MinProperties
 //@   reject[C01] "maxProperties:" isJObj(jv(instance)) && schema.MaxProperties != nil && jocard(jv(instance)) > *schema.MaxProperties
+//@   reject[C12] "enum:" isold(schema) && isold(schema.Enum) && (forall j int {schema.Enum[j]} :: 0 <= j && j < len(schema.Enum) ==> !eqv(rvof(schema.Enum[j]), instance))
+//@   reject[C12] "const:" schema.Const != nil && !eqv(rvof(*schema.Const), instance)
+//@   reject[C12] "uniqueItems:" exists i int, j int :: 0 <= j && j < i && i < rvlen(instance) && eqv(rvindex(instance, i), rvindex(instance, j))
 //@   noreads Schema: Title, Description, Comment, Default, Examples, Deprecated, ReadOnly, WriteOnly, Format, ContentEncoding, ContentMediaType, ContentSchema, Defs, Definitions, Extra, PropertyOrder, Vocabulary
 //@   loopinv rsframe: st.rs == rs
 //@   ensures[C07] noleak1: err != nil && callerAnns != nil ==> callerAnns.allItems == old(callerAnns.allItems) && callerAnns.endIndex == old(callerAnns.endIndex) && callerAnns.allProperties == old(callerAnns.allProperties)
@@ -242,6 +246,10 @@ package jsonschema
 //@   loopinv stackelems: new(st.stack) && fresh(st.stack) && (forall i int {st.stack[i]} :: 0 <= i && i < len(stk0) ==> st.stack[i] == old(stk0[i])) && st.stack[len(stk0)] == schema
 //@   loopinv stackrs: new(st.stack) && fresh(st.stack) && (forall i int {st.stack[i]} :: 0 <= i && i < len(st.stack) ==> inRS(rs, st.stack[i]))
 //@   loopinv anns: annsLocal(anns)
+//@   loop "range schema.Enum"
+//@     invariant[C12] noneq: isold(schema) && isold(schema.Enum) && !ok && (forall j int {schema.Enum[j]} :: 0 <= j && j <= $idx ==> !eqv(rvof(schema.Enum[j]), instance))
+//@     exit[C12] found: isold(schema) && isold(schema.Enum) && ($idx < len(schema.Enum) ==> 0 <= $idx && eqv(rvof(schema.Enum[$idx]), instance))
+//@     exit[C12] none: isold(schema) && isold(schema.Enum) && ($idx >= len(schema.Enum) ==> !ok && (forall j int {schema.Enum[j]} :: 0 <= j && j < len(schema.Enum) ==> !eqv(rvof(schema.Enum[j]), instance)))
 //@   loop "range schema.AnyOf"
 //@     exit[C01,C07] visitall: $idx >= len(schema.AnyOf)
 //@   loop "range schema.OneOf"
@@ -253,7 +261,7 @@ package jsonschema
 //@     exit[C06] outermost: $idx < len(st.stack) ==> (forall k int {st.stack[k]} :: 0 <= k && k < $idx ==> !dynAnchorAt(rs, st.stack[k], schemaInfo.dynamicRefAnchor))
 //@   loop "range instance.Len()#2"
 //@     invariant buckets: new(hashes) && (forall h int {has(hashes, h)} :: has(hashes, h) ==> newOrNil(hashes[h]) && allocated(hashes[h]) && (isnil(hashes[h]) || fresh(hashes[h])))
-//@     invariant hashes: new(hashes) && (forall h int, k int :: has(hashes, h) ==> newOrNil(hashes[h]) && allocated(hashes[h]) && (0 <= k && k < len(hashes[h]) ==> 0 <= hashes[h][k] && hashes[h][k] < rvlen(instance)))
+//@     invariant hashes: new(hashes) && (forall h int, k int :: has(hashes, h) ==> newOrNil(hashes[h]) && allocated(hashes[h]) && (0 <= k && k < len(hashes[h]) ==> 0 <= hashes[h][k] && hashes[h][k] < $i))
 
 //@ contract property(v, name)
 //@   requires kind: kind(v) == 21 || kind(v) == 25
